@@ -20,6 +20,7 @@ import (
 
 	"github.com/richardwilkes/toolbox/errs"
 	"github.com/richardwilkes/toolbox/xio"
+	"github.com/richardwilkes/toolbox/xio/fs/internal"
 )
 
 // ExtractArchive extracts the contents of a zip archive at 'src' into the 'dst' directory.
@@ -51,11 +52,14 @@ func ExtractWithMask(zr *zip.Reader, dst string, mask os.FileMode) error {
 	rootWithTrailingSep := fmt.Sprintf("%s%c", root, filepath.Separator)
 	for _, f := range zr.File {
 		path := filepath.Join(root, f.Name) //nolint:gosec // We check for path traversal below
-		if !strings.HasPrefix(path, rootWithTrailingSep) {
-			return errs.Newf("Path outside of root is not permitted: %s", f.Name)
-		}
 		fi := f.FileInfo()
 		mode := fi.Mode()
+		if !strings.HasPrefix(path, rootWithTrailingSep) && (path != root || !fi.IsDir()) {
+			return errs.Newf("Path outside of root is not permitted: %s", f.Name)
+		}
+		if err = internal.EnsureNoSymlinks(root, path); err != nil {
+			return errs.Wrap(err)
+		}
 		switch {
 		case mode&os.ModeSymlink != 0:
 			if err = extractSymLink(f, path, mask); err != nil {
